@@ -5,6 +5,7 @@ set -e
 cd "$(dirname "$0")"
 export GOFLAGS=-mod=mod GOPROXY=off
 unset GOSUMDB GOTOOLCHAIN || true
+rm -rf .cache/smt
 mkdir -p bin evidence/replay
 (cd cmd && go build -o ../bin/gocv ./gocv)
 # the contract files in /repo (hook commit) and their mirror must agree when both exist
